@@ -242,26 +242,49 @@ func (fr *Frame) havocCallbackObject(at types.Type, p Term, st *State) {
 // invariant is re-assumed when such an object is read again).
 func (fr *Frame) havocCallbackGhost(st *State) {
 	vc := fr.vc
+	var tns []string
 	for tn := range vc.L.CF.TypeInvs {
+		tns = append(tns, tn)
+	}
+	sort.Strings(tns)
+	for _, tn := range tns {
 		if o := vc.L.Pkg.Scope().Lookup(tn); o != nil {
 			t := o.Type()
 			name := vc.ss.HeapName(t)
-			srt := HeapSort(vc.specialSort(t))
-			vc.heapFor(st, name, srt)
-			st.heaps[name] = vc.Fresh("cb."+name, srt)
+			es := vc.specialSort(t)
+			srt := HeapSort(es)
+			old := vc.heapFor(st, name, srt)
+			nh := vc.Fresh("cb."+name, srt)
+			st.heaps[name] = nh
+			// fields that only constructors write keep their values
+			if info := vc.ss.Struct(es); info != nil {
+				mut := map[string]bool{}
+				for _, f := range vc.L.CF.TypeInvMutable[tn] {
+					mut[f] = true
+				}
+				var eqs []string
+				for _, f := range info.Fields {
+					if !mut[f.Name] {
+						eqs = append(eqs, fmt.Sprintf("(= (%s (select (select %s a!t) i!t)) (%s (select (select %s a!t) i!t)))", f.Sel, nh.S, f.Sel, old.S))
+					}
+				}
+				if len(eqs) > 0 {
+					st.Assume(T(SBool, "(forall ((a!t Int) (i!t Int)) (! (and %s) :pattern ((select (select %s a!t) i!t))))", strings.Join(eqs, " "), nh.S))
+				}
+			}
 		}
 	}
 	name, hs := vc.mapHeap(vc.headerMapType())
 	vc.heapFor(st, name, hs)
 	st.heaps[name] = vc.Fresh("cb.hdr", hs)
 	for g, srt := range vc.heapSorts {
-		if strings.HasPrefix(g, "$g.") && !strings.HasPrefix(g, "$g.lock.") && !strings.HasPrefix(g, "$g.mux") {
+		if strings.HasPrefix(g, "$g.") && !strings.HasPrefix(g, "$g.lock.") && !strings.HasPrefix(g, "$g.mux") && !strings.HasPrefix(g, "$g.own.") {
 			vc.heapFor(st, g, srt)
 		}
 	}
 	var gs []string
 	for g := range st.heaps {
-		if strings.HasPrefix(g, "$g.") && !strings.HasPrefix(g, "$g.lock.") && !strings.HasPrefix(g, "$g.mux") {
+		if strings.HasPrefix(g, "$g.") && !strings.HasPrefix(g, "$g.lock.") && !strings.HasPrefix(g, "$g.mux") && !strings.HasPrefix(g, "$g.own.") {
 			gs = append(gs, g)
 		}
 	}
